@@ -246,6 +246,20 @@ def check(run):
         'contract) changed only the registry; proved for the concrete convert_coin of the model',
         'no sha256 collision between the hook\'s path and the released denomination of a returning packet (returning_* theorems)']
 
+    if mm and not ff:
+        # model and code disagree but no monitor failed: search harder for a concrete property failure on the real code
+        # (4x budget, fresh seed) before reporting a bare correspondence break
+        outp2 = os.path.join(run.work, 'search.jsonl')
+        rc2, _ = vlib.run_harness('c16', ['-seed', run.seed + 7919, '-n', 4 * n, '-out', outp2])
+        if rc2 == 0:
+            more = [r for r in vlib.read_jsonl(outp2) if not r['obs'].get('setup_err')]
+            mm2, ff2 = evaluate(run.work, more, 'search_cases')
+            if mm2 is not None and ff2:
+                off = len(results)
+                results = results + more
+                ff = [(h + off, s, k) for h, s, k in ff2]
+            run.coverage['search_evaluations'] = len(more)
+
     reported = set()
     for h, s, k in ff:  # the property failed on the real code
         if (h, k) in reported:
